@@ -89,6 +89,11 @@ def rule_fill_buf(facts):
                 if cal.endswith(("into_iter", "::iter", "Iterator::next")):
                     scanned = True
                     continue
+                if cal.endswith(("Iterator::any", "Iterator::all", "Iterator::position", "Iterator::find")) and \
+                        not pat.has_call(tt, "index") and not pat.has_call(tt, "::get") and not pat.has_call(tt, "split_at"):
+                    # an element-wise scan of the whole visible buffer, like the `for` loop: subject to the scan idiom below
+                    scanned = True
+                    continue
                 if cal.endswith("BufRead::consume"):
                     scanned = True
                     continue
@@ -103,7 +108,10 @@ def rule_fill_buf(facts):
                 inloop = any(me in blocks for h, blocks, _ in c.loops())
                 cons = [x for x in b.calls() if (flow.declared(x.term) or "").endswith("BufRead::consume")]
                 len_ok = all(flow.term_has(tm.of_operand(x.term.args[1]), is_me) and
-                             pat.has_call(tm.of_operand(x.term.args[1]), "::len") for x in cons)
+                             pat.has_call(tm.of_operand(x.term.args[1]), "::len") and
+                             not pat.has_op(tm.of_operand(x.term.args[1]), ("Add", "Sub", "Mul", "Div", "Rem", "BitAnd", "BitOr", "BitXor", "Shl", "Shr", "Not")) and
+                             not pat.has_call(tm.of_operand(x.term.args[1]), "::min") and not pat.has_call(tm.of_operand(x.term.args[1]), "::max")
+                             for x in cons)
                 empt = any(k == "test" and (pat.has_call(tt, "is_empty") or pat.has_call(tt, "::len")) for k, _, tt in uses)
                 if not inloop:
                     okk = False
